@@ -32,6 +32,11 @@ type c10Req struct {
 	// the client present its session cookie twice (1: same header line, 2: two lines)
 	Interim bool
 	DupSess int
+	// FollowUp is issued by the same browser as soon as the response header of this
+	// request has arrived, before its body is read
+	FollowUp *c10Req
+	// MustHaveWhy describes the scenario of a MustHave check
+	MustHaveWhy string
 }
 
 // worldC10: session tracking against an independent cookie jar per modelled session.
@@ -47,6 +52,9 @@ func worldC10(w *World) {
 		limit = 2
 	}
 	noSSL := t.Choice(2, "disable-ssl") == 1
+	// with a (large) banner configured, HTML navigations are answered with a frame page
+	// that is written through the session layer
+	bigBanner := t.Rare(1, 3, "bigbanner")
 	timeout := []time.Duration{12 * time.Hour, time.Hour, 10 * time.Minute}[t.Choice(3, "timeout")]
 	// the registrable domain sits under a one-label or a two-label public suffix
 	suffix := []string{"test", "co.uk"}[t.Choice(2, "suffix")]
@@ -89,6 +97,9 @@ func worldC10(w *World) {
 		r.Gap = []time.Duration{0, 0, 2 * time.Second, 7 * time.Second, 100 * time.Second}[t.Choice(5, "gap")]
 		r.Interim = t.Rare(1, 5, "interim")
 		r.DupSess = t.Pick("dupsess", 6, 1, 1)
+		if t.Rare(1, 4, "followup") {
+			r.FollowUp = &c10Req{Browser: r.Browser, Host: r.Host, Path: paths[t.Choice(len(paths), "fpath")]}
+		}
 		script = append(script, r)
 	}
 	// a burst: every browser at once, one of them twice (disjoint cookie names)
@@ -202,10 +213,14 @@ func worldC10(w *World) {
 						found = true
 					}
 				}
-				if !found {
-					w.Violation("jar", "a cookie set by a response that arrived after its session had been pushed out of the cache was lost although the session was used again at once | browser %d: want %q in %q", b, mh, got)
+				why := r.Header.Get("X-Must-Have-Why")
+				if why == "" {
+					why = "a cookie set by a response that arrived after its session had been pushed out of the cache was lost although the session was used again at once"
+					w.Probe("late_response_after_eviction")
 				}
-				w.Probe("late_response_after_eviction")
+				if !found {
+					w.Violation("jar", "%s | browser %d: want %q in %q", why, b, mh, got)
+				}
 			}
 			if d := r.Header.Get("X-Delay-Ms"); d != "" {
 				var ms int
@@ -234,6 +249,11 @@ func worldC10(w *World) {
 				w.Probe("interim_1xx")
 			}
 			rw.Header().Set("X-Echo", "ok")
+			if r.Header.Get("X-Html") == "1" {
+				rw.Header().Set("Content-Type", "text/html")
+				rw.Write([]byte("<html><head><title>t</title></head><body>ok</body></html>"))
+				return
+			}
 			rw.Write([]byte("ok"))
 		}))
 	})
@@ -241,9 +261,13 @@ func worldC10(w *World) {
 	if noSSL {
 		args = append(args, "-disable-ssl-for-test")
 	}
+	if bigBanner {
+		args = append(args, "-inject-banner=<div>"+strings.Repeat("banner ", 30000)+"</div>", "-banner-height=40px")
+	}
 	startAgent(w, args...)
 
-	do := func(cl *http.Client, r c10Req) {
+	var do func(cl *http.Client, r c10Req)
+	do = func(cl *http.Client, r c10Req) {
 		br := browsers[r.Browser]
 		req, _ := http.NewRequest("GET", "http://proxy:80"+r.Path, nil)
 		req.Host = r.Host
@@ -262,6 +286,13 @@ func worldC10(w *World) {
 		}
 		if r.Interim {
 			req.Header.Set("X-Interim", "1")
+		}
+		if bigBanner && r.FollowUp != nil {
+			req.Header.Set("Accept", "text/html")
+			req.Header.Set("X-Html", "1")
+		}
+		if r.MustHaveWhy != "" {
+			req.Header.Set("X-Must-Have-Why", r.MustHaveWhy)
 		}
 		mu.Lock()
 		sess := br.sess
@@ -289,10 +320,19 @@ func worldC10(w *World) {
 			w.Violation("progress", "a request through the session handler failed | %v", err)
 			return
 		}
-		io.Copy(io.Discard, resp.Body)
-		resp.Body.Close()
 		if resp.StatusCode != 200 {
 			w.Violation("progress", "a request through the session handler was answered %d", resp.StatusCode)
+		}
+		defer func() {
+			io.Copy(io.Discard, resp.Body)
+			resp.Body.Close()
+		}()
+		if r.FollowUp != nil {
+			// runs after the session cookie (if any) of this response has been noted
+			defer func() {
+				w.Probe("follow_up_before_body_is_read")
+				do(w.Client(), *r.FollowUp)
+			}()
 		}
 		scs := resp.Header.Values("Set-Cookie")
 		for _, sc := range scs {
@@ -364,6 +404,27 @@ func worldC10(w *World) {
 			}
 			lw.Wait()
 			do(cl, c10Req{Browser: 0, Host: hosts[0], Path: "/", MustHave: "late=b0-late", Burst: true})
+			// a session that has dropped out of the cache is used again by two requests
+			// at the same moment, one of whose responses sets a cookie
+			for b := 1; b < nB; b++ {
+				do(cl, c10Req{Browser: b, Host: hosts[0], Path: "/", Burst: true})
+			}
+			var cw sync.WaitGroup
+			for k := 0; k < 2; k++ {
+				k := k
+				cw.Add(1)
+				go func() {
+					defer cw.Done()
+					rq := c10Req{Browser: 0, Host: hosts[0], Path: "/", Burst: true}
+					if k == 0 {
+						rq.Set = []string{"conc=b0-conc"}
+					}
+					do(w.Client(), rq)
+				}()
+			}
+			cw.Wait()
+			w.Probe("concurrent_requests_in_uncached_session")
+			do(cl, c10Req{Browser: 0, Host: hosts[0], Path: "/", MustHave: "conc=b0-conc", MustHaveWhy: "a cookie set by one of two simultaneous requests of a session that was not in the cache was lost although the session stayed in use", Burst: true})
 		}
 		w.K.Stop()
 	})
